@@ -80,7 +80,9 @@ ASSUMPTIONS = [
 ]
 KINDS = ["ang", "dih", "ang", "dih", "plain_ang", "plain_dih", "named"]
 NCASES = {"quick": 3200, "thorough": 24000}
-GEOS = ["random", "random", "random", "long", "collinear", "planar", "grid", "tiny"]
+GEOS = ["random", "random", "random", "long", "collinear", "planar", "grid", "tiny", "loose", "loose"]
+# loose: atoms anywhere in the cell (no chain), a handful of rows per call: non-bonded / coarse-grained tuples whose un-imaged
+# "bond" vectors are long compared with the cell although every component is small
 DATA = "/repo/tests/data/"
 FILES_QUICK = ["1bpi.pdb", "2EQQ.pdb", "1vii.pdb", "native.pdb", "frame0.h5", "4OH9.pdb", "aaqaa-wat.pdb", "ala_ala_ala.pdb",
                "1am7_protein.pdb", "4ZUO.pdb", "bpti.pdb", "alanine-dipeptide-explicit.pdb"]
@@ -228,7 +230,10 @@ def _build_periodic(case):
     for f in range(nf):
         w = common.cell_widths(B[f])
         origin = rng.uniform(0, 1, 3) @ B[f]
-        base[f] = _chain(rng, na, case["geo"], float(w.min()), origin, bool(ortho_f[f]))
+        if case["geo"] == "loose":
+            base[f] = rng.uniform(0, 1, (na, 3)) @ B[f]
+        else:
+            base[f] = _chain(rng, na, case["geo"], float(w.min()), origin, bool(ortho_f[f]))
         shifted[f] = base[f] + rng.integers(-K, K + 1, (na, 3)).astype(np.float64) @ B[f] if K else base[f]
     return t, B, ortho_f, base.astype(np.float32), shifted.astype(np.float32), rng
 
@@ -401,6 +406,8 @@ def _run_periodic(case, ctx):
     ctx.observe("spread_cells", K)
     ctx.observe("index_arg_style", case["idx"])
     rows = _rows_wide(rng, na, m, case["rows"]) if case.get("rows") else _rows(rng, na, m, case.get("wide", False))
+    if case.get("geo") == "loose":
+        rows = rows[rng.choice(len(rows), size=min(len(rows), int(rng.integers(1, 5))), replace=False)]
     if case.get("w") and nf >= 100 and len(rows) > 16:
         rows = rows[np.sort(rng.choice(len(rows), 16, replace=False))]
     n = len(rows)
@@ -495,6 +502,8 @@ def _run_plain(case, ctx):
                        ("n_atoms", "thousands" if na >= 500 else "small")):
             ctx.observe("wide." + k_, v_)
     rows = _rows_wide(rng, na, m, case["rows"]) if case.get("rows") else _rows(rng, na, m, case.get("wide", False))
+    if case.get("geo") == "loose":
+        rows = rows[rng.choice(len(rows), size=min(len(rows), int(rng.integers(1, 5))), replace=False)]
     n = len(rows)
     both = np.vstack([rows, rows[:, ::-1]])
     ref = Ref(x32, rows, None, None, 0, dihedral)
